@@ -488,7 +488,7 @@ func c13Run(c *fw.Ctx) {
 		var scripts [][][]string
 		for i := 0; i < 2; i++ {
 			k := "k" + strconv.Itoa(i)
-			sc := [][]string{{"GET", k}, {"AUTH", "admin", "wrong"}, {"GET", k}, {"AUTH", "wrong"}, {"GET", k}, {"AUTH", "default", c13Pass}, {"GET", k}, {"AUTH", c13Pass}, {"GET", k}}
+			sc := [][]string{{"GET", k}, {"STRLEN", k}, {"HLEN", k}, {"HKEYS", k}, {"SUBSTR", k, "0", "1"}, {"APPEND", k, "x"}, {"MGET", k, k}, {"GET", k}, {"AUTH", "admin", "wrong"}, {"GET", k}, {"AUTH", "wrong"}, {"GET", k}, {"AUTH", "default", c13Pass}, {"GET", k}, {"AUTH", c13Pass}, {"GET", k}}
 			if password {
 				sc = append([][]string{{"AUTH", c13Pass}}, sc...)
 			}
